@@ -35,6 +35,7 @@ package operations
 //@   property C17
 //@   at call SignHeader#1 assert [pax-format] arg_hdr.Format == 4
 //@   property C02
+//@   at call Join#1 assert [children-keep-relative-names] arg_elem[0] == to && arg_elem[1] == trimPrefix(trimPrefix(dbhdr.Name, "/"), trimPrefix(from, "/"))
 //@   ghostset opMoves := old(opMoves) + 1
 //@   ensures [counted] opMoves == old(opMoves) + 1
 //@   property C05
@@ -71,6 +72,10 @@ package operations
 //@   at call SignHeader#1 assert [pax-format] arg_hdr.Format == 4
 //@   property C03
 //@   at call AddSuffix#1 assert [suffix-added-with-size-record] has(hdr.PAXRecords, "STFS.UncompressedSize")
+//@   at call Encrypt assert [content-encrypted-for-recipient] arg_encryptionFormat == o.pipes.Encryption && arg_recipient == o.crypto.Recipient
+//@   at call Compress assert [compresses-into-encryptor] arg_dst == encryptor && arg_compressionFormat == o.pipes.Compression
+//@   at call Sign assert [signs-source-content] arg_src == f && arg_signatureFormat == o.pipes.Signature
+//@   at call Flush assert [whole-source-through-pipeline] copied[compressor] == signer || copied[compressor] == f
 //@   property C01
 //@   at call SignHeader#1 assert [indexed-header-is-written-header] hdrToAppend == deref(hdr)
 //@   property C05
@@ -91,6 +96,10 @@ package operations
 //@   at call SignHeader#2 assert [pax-format-meta] arg_hdr.Format == 4
 //@   property C03
 //@   at call AddSuffix#1 assert [suffix-added-with-size-record] has(hdr.PAXRecords, "STFS.UncompressedSize")
+//@   at call Encrypt assert [content-encrypted-for-recipient] arg_encryptionFormat == o.pipes.Encryption && arg_recipient == o.crypto.Recipient
+//@   at call Compress assert [compresses-into-encryptor] arg_dst == encryptor && arg_compressionFormat == o.pipes.Compression
+//@   at call Sign assert [signs-source-content] arg_src == f && arg_signatureFormat == o.pipes.Signature
+//@   at call Flush assert [whole-source-through-pipeline] copied[compressor] == signer || copied[compressor] == f
 //@   property C01
 //@   at call SignHeader#1 assert [indexed-header-is-written-header] hdrToAppend == deref(hdr)
 //@   at call SignHeader#2 assert [indexed-header-is-written-header-meta] hdrToAppend == deref(hdr)
